@@ -21,6 +21,7 @@ import sys
 import tempfile
 
 VERIF = os.path.dirname(os.path.dirname(os.path.abspath(__file__)))
+N_DIV = int(os.environ.get("EVAL_N_DIV", "1"))  # regression passes over all ids use a fraction of the quick run count
 PY = "/venv/bin/python"
 
 
@@ -67,9 +68,15 @@ def evaluate(sid, all_props, run_tests):
             if p not in claimed():
                 det[p] = "not claimed"
                 continue
-            rc, out = sh(f"{PY} {VERIF}/run.py check {p} --tier quick", env={"JSL_REPO": tmp}, cwd=VERIF, timeout=1800)
+            extra = ""
+            if N_DIV > 1:
+                sys.path.insert(0, VERIF)
+                from sim import runner as _r
+
+                extra = f" --n {max(200, _r.load_prop(p).N['quick'] // N_DIV)}"
+            rc, out = sh(f"{PY} {VERIF}/run.py check {p} --tier quick{extra}", env={"JSL_REPO": tmp}, cwd=VERIF, timeout=1800)
             oracles = re.findall(r"violated oracle (\w+)", out)
-            det[p] = {"exit": rc, "violation": "VIOLATION property=" in out, "oracles": sorted(set(oracles)), "harness_error": "HARNESS-ERROR" in out}
+            det[p] = {"runs": extra.strip() or "full quick", "exit": rc, "violation": "VIOLATION property=" in out, "oracles": sorted(set(oracles)), "harness_error": "HARNESS-ERROR" in out}
         res["checks"] = det
         res["detected_by_owner"] = isinstance(det.get(prop), dict) and det[prop]["violation"]
         res["detected_by"] = sorted(p for p, v in det.items() if isinstance(v, dict) and v["violation"])
